@@ -387,7 +387,7 @@ static inline std::string first_violation(const Case &cs, int foundAnchor)
             if (!key_enabled(iss.key)) return "accepts-weak-issuer-key";
             return "accepts-disabled-hash";
         }
-        if (last && iss.unk == 2) return "accepts-unparsed-trust-anchor";
+        if (last && iss.unk == 2) return "accepts-unknown-critical-ext";      // the anchor itself parsed (else judge() names it accepts-unparsed-trust-anchor)
         if (iss.version == 3 && iss.bc != mint::BC_TRUE) return "accepts-non-ca-issuer";
         if (iss.version != 3 && !last) return "accepts-non-ca-issuer";
         if (iss.version == 3 && iss.pathLen >= 0 && iss.pathLen < below) return "accepts-pathlen-violation";
